@@ -183,6 +183,33 @@ def _real_ctor(which, inp):
         return [type(ex).__name__]
 
 
+def audit():
+    """thorough tier: topological_ordering re-checked by CrossHair (its own symbolic floats and path exploration)
+    on the real source through the same numpy shim; 2 x 2 and 3 x 3 matrices of arbitrary finite floats"""
+    import os
+    import subprocess
+    import sys
+    import time
+    verif = os.path.dirname(os.path.dirname(os.path.abspath(__file__)))
+    env = dict(os.environ)
+    env['PYTHONPATH'] = os.path.join(verif, '.deps')
+    t0 = time.time()
+    try:
+        r = subprocess.run([sys.executable, '-m', 'crosshair', 'check', '--report_all', '--per_condition_timeout', '300',
+                            os.path.join(verif, 'audit', 'c03_crosshair.py')], capture_output=True, text=True, env=env, timeout=900, cwd=verif)
+        out = (r.stdout + r.stderr).strip().splitlines()
+    except subprocess.TimeoutExpired:
+        return dict(engine='CrossHair', result='timeout (inconclusive audit)', disagreement=False, seconds=round(time.time() - t0, 1))
+    lines = [l.split('c03_crosshair.py:')[-1] for l in out if 'c03_crosshair.py' in l]
+    confirmed = sum(1 for l in lines if 'Confirmed over all paths' in l)
+    notconf = sum(1 for l in lines if 'Not confirmed' in l)
+    errors = [l for l in lines if ' error: ' in l]
+    res = ('Confirmed over all paths for %d of 2 conditions; %d not confirmed (no counterexample within 300 s)' % (confirmed, notconf)) if not errors else 'counterexample reported'
+    return dict(engine='CrossHair 0.0.110 (crosshair check --report_all --per_condition_timeout 300)', result=res, detail=lines,
+                bounds='topological_ordering on 2 x 2 (4 symbolic floats) and 3 x 3 (9 symbolic floats) matrices, |w| < 1e6, no NaN',
+                disagreement=bool(errors), seconds=round(time.time() - t0, 1))
+
+
 def obligations(tier):
     ob = []
     exp = ('returned', 'raised ValueError')
